@@ -269,5 +269,5 @@ MANIFEST = {
                   'returns a positive offset below which every probed point had the objective under the threshold; the unnormalised '
                   'posterior and the sample weights equal their definitions for every objective and prior (uninterpreted).',
     'level_note': 'D<=2; inverse of an orthonormal matrix modelled as its transpose; K<=2..3 refinements, rep_lim<=2..3; <=2 '
-                  'regions; non-linear real arithmetic queries on z3 (nlsat); exact reals.',
+                  'regions; the caller\'s limits array is reused for a second region; non-linear real arithmetic queries on z3 (nlsat); exact reals.',
 }
